@@ -527,7 +527,11 @@ func Judge(in Input, next netip.AddrPort, out []byte) (kind, outcome string, fs 
 			if len(q.L4) >= 2 {
 				got = fmt.Sprintf("layer-4 protocol %d, type %d code %d", q.L4Type, q.L4[0], q.L4[1])
 			}
-			add("C44:reply-type:ext-"+p.ExtSig(), fmt.Sprintf("reply to SCMP type %d is not an SCMP message of type %d code 0 directly readable from its headers (%v)", p.L4[0], p.L4[0]+1, got))
+			sig := p.ExtSig()
+			if n := len(p.Exts); n > 0 && p.Exts[n-1].Type == ProtoE2E {
+				sig = "e2e" // an end-to-end extension directly precedes the SCMP header
+			}
+			add("C44:reply-type:ext-"+sig, fmt.Sprintf("reply to SCMP type %d is not an SCMP message of type %d code 0 directly readable from its headers (%v)", p.L4[0], p.L4[0]+1, got))
 		case !ChecksumOK(q):
 			add("C44:reply-checksum", "SCMP checksum of the reply is wrong")
 		default:
